@@ -16,7 +16,10 @@
            sequence ([\textbf\alpha]: its own arguments are not parsed), a specials
            sequence,
       (e6) a comment that ends with the input; a paragraph break followed by
-           indentation.
+           indentation,
+      (e7) verbatim: the [\verb] macro ([\verb|text|]) and the verbatim environments
+           ([\begin{verbatim} text \end{verbatim}], [lstlisting] with its optional
+           argument).
     Same conventions as the core grammar: whitespace is a FIELD of the item it
     precedes, [tree_of2] is in accumulator form (the collector's state after
     the items so far).
@@ -45,6 +48,9 @@ Inductive item2 :=
 | Env2 (ws bws name : str) (args body : list item2) (tr ews : str)
                                   (* ws \begin bws {name} {arg}...{arg} body tr \end ews {name} *)
 | Spc2 (ws chars : str) (args : list item2)            (* ws chars {arg}...{arg}   (specials, e.g. [~], [--]) *)
+| Vrb2 (ws name post : str) (dc : N) (text : str)       (* ws \name post dc text dc   (the [\verb] macro) *)
+| VEnv2 (ws bws name : str) (oarg : list item2) (text : str)
+                                  (* ws \begin bws {name} [oarg] text \end{name}   (verbatim environments) *)
 (* the next two only in ARGUMENT position *)
 | Brk2 (ws : str) (oc cc : N) (body : list item2) (tr : str)   (* ws [ body tr ]   (delimited argument) *)
 | Abs2.                                                 (* an optional argument that is not written *)
@@ -67,6 +73,9 @@ Fixpoint unparse_item2 (i : item2) : str :=
   | Env2 ws bws name args b tr ews =>
       ws ++ begin_str bws name ++ flat_map unparse_item2 args ++ flat_map unparse_item2 b ++ tr ++ end_str ews name
   | Spc2 ws chars args => ws ++ chars ++ flat_map unparse_item2 args
+  | Vrb2 ws name post dc text => ws ++ 92%N :: name ++ post ++ dc :: text ++ [dc]
+  | VEnv2 ws bws name oarg text =>
+      ws ++ begin_str bws name ++ flat_map unparse_item2 oarg ++ text ++ end_str [] name
   | Brk2 ws oc cc b tr => ws ++ oc :: flat_map unparse_item2 b ++ tr ++ [cc]
   | Abs2 => []
   end.
@@ -77,7 +86,7 @@ Definition ilen2 (i : item2) : nat := length (unparse_item2 i).
 Definition item_ws2 (i : item2) : str :=
   match i with
   | Text2 ws _ | Grp2 ws _ _ | Mac2 ws _ _ _ | Math2 ws _ _ _ | Cmt2 ws _ _ | Par2 ws _
-  | Env2 ws _ _ _ _ _ _ | Spc2 ws _ _ | Brk2 ws _ _ _ _ => ws
+  | Env2 ws _ _ _ _ _ _ | Spc2 ws _ _ | Brk2 ws _ _ _ _ | Vrb2 ws _ _ _ _ | VEnv2 ws _ _ _ _ => ws
   | Abs2 => []
   end.
 
@@ -262,6 +271,45 @@ Fixpoint ok_item2 (cx : context) (ps : pstate) (ex : str) (i : item2) (fol : str
              end
          | None => false
          end
+  | Vrb2 ws name post dc text =>
+      (* the macro resolves to the verbatim-macro signature; the delimiter is not whitespace,
+         follows the name (and its post-space) directly and does not occur in the text *)
+      ws_ok ws && ws_ok post && name_ok name post
+      && match get_macro_spec cx name with
+         | Some sp => match sp_args sp with APLegacy LVerbMacro => true | _ => false end
+         | None => false
+         end
+      && mac_follow_ok name post (Some dc) && negb (is_space dc) && negb (mem_c dc text)
+  | VEnv2 ws bws name oarg text =>
+      (* the environment resolves to a verbatim-environment signature for this very name;
+         [\end{name}] (written without whitespace) first occurs in what is written from the
+         text on exactly at the end of the text; the optional argument of the signature, if
+         any, is written as a delimited argument directly after [\begin{name}], or is absent *)
+      ws_ok ws && forallb is_space bws && envname_ok name && f_en_envs (ps_f ps)
+      && match get_env_spec cx name with
+         | Some sp =>
+             match sp_args sp with
+             | APLegacy (LVerbEnv vn optarg) =>
+                 let endc := end_str [] name in
+                 str_eqb vn name
+                 && match find_sub (text ++ endc ++ fol) endc with
+                    | Some k => Nat.eqb k (length text)
+                    | None => false
+                    end
+                 && match oarg with
+                    | [] => negb optarg
+                    | [Abs2] =>
+                        optarg && (otest is_space (hd_error (text ++ endc))
+                                   || absent_ok (f_en_envs (ps_f ps)) 91%N (text ++ endc ++ fol))
+                    | [Brk2 [] oc cc b tr] =>
+                        optarg && N.eqb oc 91 && N.eqb cc 93 && ws_ok tr
+                        && oks ps [91; 93]%N b (tr ++ 93%N :: text ++ endc ++ fol)
+                    | _ => false
+                    end
+             | _ => false
+             end
+         | None => false
+         end
   | Brk2 _ _ _ _ _ | Abs2 => false        (* only as arguments *)
   end.
 
@@ -411,6 +459,30 @@ Fixpoint node_of2 (cx : context) (ps : pstate) (p0 : nat) (i : item2) {struct i}
           end
       | None => None
       end
+  | Vrb2 _ name post dc text =>
+      let b := p0 + 1 + length name + length post + 1 in
+      Some (NMacro p0 (b + length text + 1) (ps_mode ps) name post
+                   (Some ([[123%N]], [Some (mk_chars ps b (b + length text) text)])))
+  | VEnv2 _ bws name oarg text =>
+      match get_env_spec cx name with
+      | Some sp =>
+          match sp_args sp with
+          | APLegacy (LVerbEnv vn optarg) =>
+              let pa := p0 + length (begin_str bws name) in
+              let on := match oarg with
+                        | [a] => ([node_of2 cx ps pa a], pa + ilen2 a)
+                        | _ => ([], pa)
+                        end in
+              let e := snd on + length text in
+              let bps := if sp_body_math sp then ps_enter_math ps None else ps in
+              Some (NEnv p0 (e + length (end_str [] name)) (ps_mode ps) name
+                         (Some ((if optarg then [[91%N]] else []) ++ [[123%N]],
+                                fst on ++ [Some (mk_chars ps (snd on) e text)]))
+                         (Some (gen_nodelist e (cs_acc (close_state bps cs_empty [] e)))))
+          | _ => None
+          end
+      | None => None
+      end
   end.
 
 Definition absorb_item2 (cx : context) (ps : pstate) (p : nat) (st : collstate) (j : item2) : collstate :=
@@ -484,6 +556,9 @@ Fixpoint wsv2 (i i' : item2) {struct i} : Prop :=
   | Env2 ws _ nm a b tr _, Env2 ws' _ nm' a' b' tr' _ =>
       wse ws ws' /\ nm = nm' /\ wse tr tr' /\ all2 a a' /\ all2 b b'
   | Spc2 ws ch a, Spc2 ws' ch' a' => wse ws ws' /\ ch = ch' /\ all2 a a'
+  | Vrb2 ws nm post dc tx, Vrb2 ws' nm' post' dc' tx' =>
+      wse ws ws' /\ nm = nm' /\ wse post post' /\ dc = dc' /\ tx = tx'
+  | VEnv2 ws _ nm oa tx, VEnv2 ws' _ nm' oa' tx' => wse ws ws' /\ nm = nm' /\ tx = tx' /\ all2 oa oa'
   | Brk2 ws oc cc b tr, Brk2 ws' oc' cc' b' tr' => wse ws ws' /\ oc = oc' /\ cc = cc' /\ wse tr tr' /\ all2 b b'
   | Abs2, Abs2 => True
   | _, _ => False
